@@ -79,7 +79,7 @@ static inline double fastabs(double x){
 
 static void stumpff_cs(double *restrict cs, double z) {
     unsigned int n = 0;
-    while(fastabs(z)>0.1){
+    while(fastabs(z)>0.1 && isfinite(z)){
         z = z/4.;
         n++;
     }
@@ -107,7 +107,7 @@ static void stumpff_cs(double *restrict cs, double z) {
 }
 static void stumpff_cs3(double *restrict cs, double z) {
     unsigned int n = 0;
-    while(fabs(z)>0.1){
+    while(fabs(z)>0.1 && isfinite(z)){
         z = z/4.;
         n++;
     }
